@@ -221,6 +221,8 @@ def run_case(shape, how, pos, kw, via_send):
         observed = obs[0] if len(obs) == 1 else ("calls", len(obs))
     except TypeError as e:
         observed = "TypeError"
+    except Exception as e:  # noqa: BLE001  (anything else escaping the library is an observation, not a harness error)
+        observed = f"raised {type(e).__name__}: {str(e)[:100]}"
     if how == "partial":
         # the first positional parameter is pre-bound: the adapter sees the remaining signature
         positional = [p for p in params if p[1] in ("PO", "PK")]
